@@ -957,10 +957,14 @@ theorem c10_iff_port (m : Mgr) (hI : Inv asciiLower m) (c : Str) (spec : Spec) (
     quantify over (two concurrent invocations for colliding names can both pass the conflict checks);
     (2) `ToAuthenticationConfig` does not make the SNI verify-options provider conditional on the control plane's
     client-cert configuration, so `proxyAuthenticate … (sniInstalled := true)` is what the shipped proxy builds with
-    AND without a control-plane client CA (`c10_auth_applied`). -/
+    AND without a control-plane client CA (`c10_auth_applied`);
+    (3) a handler result that asks for a requeue (a refused name conflict) is re-delivered for ever — nothing feeds
+    the counter `MaxRequeueTimes` is compared with: a refused cluster is looked at again after the conflict ends
+    (then `c10_refused_iff` applies it); nothing else would ever trigger it. -/
 theorem c10_wiring_facts :
     (KG.Gen.C10.workersStarted = some 1 ∨ KG.Gen.C10.workersStarted = none) ∧
-    KG.Gen.C10.sniProviderWithoutControlPlaneCA ≠ some false := by decide
+    KG.Gen.C10.sniProviderWithoutControlPlaneCA ≠ some false ∧
+    KG.Gen.C10.requeueAfterCounted ≠ some true := by decide
 
 /-! ### non-vacuity: the hypotheses of the theorems are satisfied by concrete, non-trivial histories -/
 
